@@ -519,16 +519,34 @@ static void sample_case(const case_t *c, const res_t *r)
 	free(sb.s);
 }
 
+/* A part is abandoned (and the run reported as not exhaustive) at the deadline
+ * or when it has already produced FAULT_CAP faults in this worker: a caught
+ * signal costs ~10 us and a tree on which nearly every call faults would
+ * otherwise need hours to say the same thing again. */
+#define FAULT_CAP 20000
+static uint64_t part_fault_base;
+static void part_begin(void) { part_fault_base = n_faults; }
+static int must_stop(char part)
+{
+	if (vx_deadline_passed()) { vx_note("part (%c) stopped at the deadline", part); return 1; }
+	if (n_faults - part_fault_base > FAULT_CAP) {
+		vx_note("part (%c) abandoned after more than %d faults in one worker; run is not exhaustive", part, FAULT_CAP);
+		return 1;
+	}
+	return 0;
+}
+
 /* ---------------------------------------------------------------- part (a) */
 
 static int part_a(void)
 {
 	case_t c; res_t r;
 	memset(&c, 0, sizeof(c)); c.part = 'a';
+	part_begin();
 	uint64_t na = 0;
 	for (int len = 0; len <= A_MAXLEN; len++) {
 		if (!vx_mine((uint64_t)len)) continue;
-		if (vx_deadline_passed()) { vx_count("a_arrays", na); vx_count("a_evaluations", 2 * na); return 0; }
+		if (must_stop('a')) { vx_count("a_arrays", na); vx_count("a_evaluations", 2 * na); return 0; }
 		c.len = len;
 		for (int pos = 0; pos < (len ? len : 1); pos++)
 			for (int val = 0; val < (len ? 256 : 1); val++)
@@ -620,6 +638,7 @@ static int part_b(void)
 {
 	case_t c; res_t r;
 	memset(&c, 0, sizeof(c)); c.part = 'b';
+	part_begin();
 	gen_lines();
 	if (vx_args.worker == 0) vx_count("b_line_pool", (uint64_t)nlines_pool);
 	/* the empty text: zero lines */
@@ -642,7 +661,7 @@ static int part_b(void)
 	/* all single lines and all ordered pairs of lines from the pool */
 	for (int i = 0; i < nlines_pool; i++) {
 		if (!vx_mine((uint64_t)i)) continue;
-		if (vx_deadline_passed()) { b_flush(); return 0; }
+		if (must_stop('b')) { b_flush(); return 0; }
 		memcpy(c.text, lines[i].s, lines[i].len); c.n = lines[i].len; c.text[c.n] = 0;
 		b_run(&c, &r);
 		if (i == 777 || i == nlines_pool - 1) { c.mode = 1; eval_case(&c, &r); sample_case(&c, &r); }
@@ -672,6 +691,7 @@ static int part_c(int *len_done)
 {
 	case_t c; res_t r;
 	memset(&c, 0, sizeof(c)); c.part = 'c';
+	part_begin();
 	int maxlen = vx_thorough() ? 8 : 7, csamples = 0;
 	uint64_t block = 0;
 	*len_done = -1;
@@ -680,7 +700,7 @@ static int part_c(int *len_done)
 		for (int i = 0; i < n; i++) total *= 9;
 		for (uint64_t base = 0; base < total; base += C_BLOCK, block++) {
 			if (!vx_mine(block)) continue;
-			if (vx_deadline_passed()) { c_flush(); return 0; }
+			if (must_stop('c')) { c_flush(); return 0; }
 			uint64_t end = base + C_BLOCK < total ? base + C_BLOCK : total;
 			for (uint64_t idx = base; idx < end; idx++) {
 				uint64_t x = idx;
